@@ -5,6 +5,7 @@ import (
 	"fmt"
 	"go/ast"
 	"go/constant"
+	"go/token"
 	"go/types"
 	"sort"
 	"strings"
@@ -90,49 +91,214 @@ var sealedFlowFacts = map[string]map[string]string{
 	"internal/cpp/types.writeComputedFieldExpression":    {"*": "visitor over an Expression tree: every Expression implementer has a case (rule X2)"},
 }
 
+// exhaustiveTypes: the cases of ti (a type switch, or a chain of type assertions read as one) cover every implementer
+// of the sealed interface that is the static type of the subject.
+func exhaustiveTypes(c *core.Ctx, info *types.Info, ti typeSwitchInfo, facts map[string]string) (bool, string) {
+	st := info.TypeOf(ti.subject)
+	if st == nil {
+		return false, "subject type unknown"
+	}
+	iface, ok := st.Underlying().(*types.Interface)
+	if !ok {
+		return false, "subject is not an interface"
+	}
+	nt := core.NamedOf(st)
+	if nt == nil || nt.Obj().Pkg() == nil || nt.Obj().Pkg().Path() != core.Mod+"/pkg/dsl" {
+		return false, "subject is not a sealed interface of pkg/dsl"
+	}
+	var missing []string
+	var excused []string
+	for _, impl := range implementersOf(c, iface) {
+		if _, ok := ti.covers(impl); !ok {
+			if r, ok := facts[typeLabel(impl)]; ok {
+				excused = append(excused, typeLabel(impl)+" ("+r+")")
+				continue
+			}
+			if r, ok := facts["*"]; ok && nt.Obj().Name() == "Node" {
+				excused = append(excused, typeLabel(impl))
+				_ = r
+				continue
+			}
+			missing = append(missing, typeLabel(impl))
+		}
+	}
+	if len(missing) == 0 && len(excused) > 0 {
+		if r, ok := facts["*"]; ok {
+			return true, "type switch covers what can occur: " + r
+		}
+		return true, "type switch covers every implementer of " + nt.Obj().Name() + " that can reach it; excluded by flow fact: " + strings.Join(excused, "; ")
+	}
+	if len(missing) > 0 {
+		return false, "implementers of " + nt.Obj().Name() + " without a case: " + strings.Join(missing, ", ")
+	}
+	return true, "type switch covers every implementer of " + nt.Obj().Name()
+}
+
+// assertChain reads an abort guarded by type assertions as the default of a type switch:
+//
+//	if a, ok := S.(*A); ok { return ... }          earlier sibling that leaves: *A is covered
+//	b, ok := S.(*B); if !ok { panic(...) }         the abort: *B is covered
+//
+// or the final else of `if a, ok := S.(*A); ok {...} else if b, ok := S.(*B); ok {...} else { panic(...) }`.
+func assertChain(info *types.Info, d *ast.FuncDecl, call *ast.CallExpr) (typeSwitchInfo, bool) {
+	var stack []ast.Node
+	var path []ast.Node
+	ast.Inspect(d.Body, func(n ast.Node) bool {
+		if n == nil {
+			stack = stack[:len(stack)-1]
+			return true
+		}
+		stack = append(stack, n)
+		if n == ast.Node(call) {
+			path = append([]ast.Node{}, stack...)
+		}
+		return true
+	})
+	// assertion `x, ok := S.(T)`: subject, type, the ok object
+	assertOf := func(st ast.Stmt) (ast.Expr, types.Type, types.Object) {
+		as, ok := st.(*ast.AssignStmt)
+		if !ok || len(as.Lhs) != 2 || len(as.Rhs) != 1 {
+			return nil, nil, nil
+		}
+		ta, ok := ast.Unparen(as.Rhs[0]).(*ast.TypeAssertExpr)
+		if !ok || ta.Type == nil {
+			return nil, nil, nil
+		}
+		id, ok := as.Lhs[1].(*ast.Ident)
+		if !ok {
+			return nil, nil, nil
+		}
+		return ta.X, info.TypeOf(ta.Type), info.ObjectOf(id)
+	}
+	isOk := func(e ast.Expr, o types.Object) bool {
+		id, ok := ast.Unparen(e).(*ast.Ident)
+		return ok && o != nil && info.ObjectOf(id) == o
+	}
+	isNotOk := func(e ast.Expr, o types.Object) bool {
+		u, ok := ast.Unparen(e).(*ast.UnaryExpr)
+		return ok && u.Op == token.NOT && isOk(u.X, o)
+	}
+	var ti typeSwitchInfo
+	add := func(t types.Type) { ti.cases = append(ti.cases, tsCase{types: []types.Type{t}}) }
+	sameSubject := func(e ast.Expr) bool {
+		if ti.subject == nil {
+			ti.subject = e
+			return true
+		}
+		a, aok := keyOf(info, ti.subject)
+		b, bok := keyOf(info, e)
+		return aok && bok && a == b
+	}
+	// innermost if that holds the abort
+	for i := len(path) - 1; i >= 1; i-- {
+		ifs, ok := path[i].(*ast.IfStmt)
+		if !ok {
+			continue
+		}
+		blk, _ := path[i+1].(*ast.BlockStmt)
+		if blk == nil {
+			return ti, false
+		}
+		// the block that holds the statement the chain starts with, and that statement
+		var holder []ast.Stmt
+		var first ast.Stmt = ifs
+		switch {
+		case blk == ifs.Body:
+			// form A: `if !ok { abort }`
+			var subj ast.Expr
+			var t types.Type
+			var okObj types.Object
+			if ifs.Init != nil {
+				subj, t, okObj = assertOf(ifs.Init)
+			}
+			par, _ := path[i-1].(*ast.BlockStmt)
+			var list []ast.Stmt
+			if par != nil {
+				list = par.List
+			} else if cc, isCC := path[i-1].(*ast.CaseClause); isCC {
+				list = cc.Body
+			}
+			if subj == nil {
+				for j, st := range list {
+					if st == ast.Stmt(ifs) && j > 0 {
+						subj, t, okObj = assertOf(list[j-1])
+						first = list[j-1]
+					}
+				}
+			}
+			if subj == nil || !isNotOk(ifs.Cond, okObj) || !sameSubject(subj) {
+				return ti, false
+			}
+			add(t)
+			holder = list
+		case ast.Stmt(blk) == ifs.Else:
+			// form B: final else of a chain; climb to the root of the chain
+			root := ifs
+			j := i
+			for j >= 1 {
+				up, ok := path[j-1].(*ast.IfStmt)
+				if !ok || up.Else != ast.Stmt(root) {
+					break
+				}
+				root = up
+				j--
+			}
+			for cur := root; cur != nil; {
+				if cur.Init == nil {
+					return ti, false
+				}
+				subj, t, okObj := assertOf(cur.Init)
+				if subj == nil || !isOk(cur.Cond, okObj) || !sameSubject(subj) {
+					return ti, false
+				}
+				add(t)
+				next, _ := cur.Else.(*ast.IfStmt)
+				cur = next
+			}
+			first = root
+			if par, ok := path[j-1].(*ast.BlockStmt); ok {
+				holder = par.List
+			} else if cc, ok := path[j-1].(*ast.CaseClause); ok {
+				holder = cc.Body
+			}
+		default:
+			return ti, false
+		}
+		// earlier siblings that leave on a successful assertion of the same subject
+		for k, st := range holder {
+			if st == first {
+				break
+			}
+			e, ok := st.(*ast.IfStmt)
+			if !ok || e.Else != nil || len(e.Body.List) == 0 || !stmtLeaves(e.Body.List[len(e.Body.List)-1]) {
+				continue
+			}
+			var subj ast.Expr
+			var t types.Type
+			var okObj types.Object
+			if e.Init != nil {
+				subj, t, okObj = assertOf(e.Init)
+			} else if k > 0 {
+				subj, t, okObj = assertOf(holder[k-1])
+			}
+			if subj != nil && isOk(e.Cond, okObj) {
+				if a, aok := keyOf(info, subj); aok {
+					if b, bok := keyOf(info, ti.subject); bok && a == b {
+						add(t)
+					}
+				}
+			}
+		}
+		return ti, ti.subject != nil && len(ti.cases) > 0
+	}
+	return ti, false
+}
+
 func exhaustive(c *core.Ctx, info *types.Info, sw ast.Stmt, fn string) (bool, string) {
 	facts := sealedFlowFacts[fn]
 	switch s := sw.(type) {
 	case *ast.TypeSwitchStmt:
-		ti := parseTypeSwitch(info, s)
-		st := info.TypeOf(ti.subject)
-		if st == nil {
-			return false, "subject type unknown"
-		}
-		iface, ok := st.Underlying().(*types.Interface)
-		if !ok {
-			return false, "subject is not an interface"
-		}
-		nt := core.NamedOf(st)
-		if nt == nil || nt.Obj().Pkg() == nil || nt.Obj().Pkg().Path() != core.Mod+"/pkg/dsl" {
-			return false, "subject is not a sealed interface of pkg/dsl"
-		}
-		var missing []string
-		var excused []string
-		for _, impl := range implementersOf(c, iface) {
-			if _, ok := ti.covers(impl); !ok {
-				if r, ok := facts[typeLabel(impl)]; ok {
-					excused = append(excused, typeLabel(impl)+" ("+r+")")
-					continue
-				}
-				if r, ok := facts["*"]; ok && nt.Obj().Name() == "Node" {
-					excused = append(excused, typeLabel(impl))
-					_ = r
-					continue
-				}
-				missing = append(missing, typeLabel(impl))
-			}
-		}
-		if len(missing) == 0 && len(excused) > 0 {
-			if r, ok := facts["*"]; ok {
-				return true, "type switch covers what can occur: " + r
-			}
-			return true, "type switch covers every implementer of " + nt.Obj().Name() + " that can reach it; excluded by flow fact: " + strings.Join(excused, "; ")
-		}
-		if len(missing) > 0 {
-			return false, "implementers of " + nt.Obj().Name() + " without a case: " + strings.Join(missing, ", ")
-		}
-		return true, "type switch covers every implementer of " + nt.Obj().Name()
+		return exhaustiveTypes(c, info, parseTypeSwitch(info, s), facts)
 	case *ast.SwitchStmt:
 		if s.Tag == nil {
 			return false, "tagless switch"
@@ -313,6 +479,15 @@ func ruleAbortsImpl(fileScope func(string) bool, ruleID string, min int, onlyDef
 				}
 				// the construct is named by what is switched on (its static type), not by the name of the variable
 				label := "abort"
+				var chain *typeSwitchInfo
+				if sw == nil {
+					if ti, ok := assertChain(info, d, a.call); ok {
+						if _, isIface := info.TypeOf(ti.subject).Underlying().(*types.Interface); isIface {
+							chain = &ti
+							label = "default of type switch on " + typeLabel(info.TypeOf(ti.subject))
+						}
+					}
+				}
 				if sw != nil {
 					switch s := sw.(type) {
 					case *ast.TypeSwitchStmt:
@@ -333,8 +508,16 @@ func ruleAbortsImpl(fileScope func(string) bool, ruleID string, min int, onlyDef
 						}
 					}
 				}
-				if sw != nil {
-					if ok, why := exhaustive(c, info, sw, c.FuncName(d)); ok {
+				if sw != nil || chain != nil {
+					var ok bool
+					var why string
+					if chain != nil {
+						ok, why = exhaustiveTypes(c, info, *chain, sealedFlowFacts[c.FuncName(d)])
+						why = "chain of type assertions read as a type switch: " + why
+					} else {
+						ok, why = exhaustive(c, info, sw, c.FuncName(d))
+					}
+					if ok {
 						c.OK(ruleID, key, a.call.Pos(), why)
 						continue
 					} else if r, listed := auditedAborts[auditKey]; listed {
